@@ -19,6 +19,18 @@ CHECKS = {
             "numerical equality chunked vs in-memory and dask's own graph correctness are not decided.",
             "custom AST dataflow lint (CFG + reaching definitions over apply_ufunc sites) + clang JSON AST who-may-call rule",
             "DESIGN.md section 4 C07"),
+    "C17": (True, "other",
+            "Whole-package interprocedural effect analysis: for every public entry point (functions, accessor methods, "
+            "plugin writers) it decides that no write sink (item/attribute/.values/augmented assignment, in-place methods, "
+            "out=, inplace=True) can reach a container, variable object, buffer, coordinate object or coordinate buffer "
+            "that may be identical with a parameter or the receiver, under an explicit alias model of xarray/numpy; plus a "
+            "clang-AST rule that the C routine never stores through its input buffer. For this property the structural "
+            "argument is essentially the whole argument, for all inputs and call sequences.",
+            "soundness rests on the measured alias table (sa/xrmodel.py) and the stated assumptions (fancy isel copies; "
+            "library calls outside the mutator table do not mutate); bit-for-bit equality itself is not executed.",
+            "interprocedural may-alias / write-effect analysis (abstract interpretation over ast, summaries to fixpoint) + "
+            "clang JSON AST store rule",
+            "DESIGN.md section 4 C17"),
 }
 
 NA_DEFAULT = "check under construction in this build round (see DESIGN.md section 8)"
